@@ -78,7 +78,7 @@ class Probe:
                 "replicas": {c: sorted(mgt.discovery.replica_agents(c)) for c in comps},
                 "hosts": {c: _safe(lambda: mgt.discovery.computation_agent(c)) for c in comps},
             }
-            probe.event_at = len(thrx.SCHED.taken)
+            probe.event_at = len(thrx.cur().taken)
             probe.draw_at_event = len(choice_mod.CURRENT.taken)
             return o_evt(mgt, msg, t)
 
@@ -87,7 +87,7 @@ class Probe:
         o_dump = Mgt._dump_repair_metrics
 
         def dump(mgt, status, duration):
-            probe.repairs.append((status, len(thrx.SCHED.taken), thrx.SCHED.clock, len(choice_mod.CURRENT.taken)))
+            probe.repairs.append((status, len(thrx.cur().taken), thrx.cur().clock, len(choice_mod.CURRENT.taken)))
             probe.mgt = mgt
             return o_dump(mgt, status, duration)
 
@@ -140,7 +140,7 @@ def scenario_for(job, probe, draws=()):
 
             def observer():
                 # once the repair for the event completes, let the queues drain for one virtual second, then look
-                thrx.SCHED.block(lambda: bool(probe.repairs), None, "observer.wait")
+                thrx.cur().block(lambda: bool(probe.repairs), None, "observer.wait")
                 thrx.vsleep(1.0)
                 mgt = probe.mgt
                 comps = sorted(n.name for n in mgt.graph.nodes)
@@ -149,7 +149,7 @@ def scenario_for(job, probe, draws=()):
                     a.name: sorted(c.name for c in a.computations()) for a in probe.agents if a.is_running and a.name not in job["removed"]
                 }
                 snap["removed_still_running"] = [a.name for a in probe.agents if a.name in job["removed"] and a.is_running]
-                snap["clock"] = thrx.SCHED.clock
+                snap["clock"] = thrx.cur().clock
 
             obs = thrx.VThread(target=observer, name="observer", daemon=True)
             obs.start()
